@@ -142,7 +142,10 @@ def case_strategy(draw, tier="quick"):
     if not two and draw(st.integers(0, 3)) == 0:
         shape = draw(st.sampled_from(["tuple", "list", "frozenset", "range"]))
         ops = [["map", "tsum"]] + ops
-    return {"two": two, "ops": ops, "inputs": [list(i) for i in inputs], "shape": shape}
+    post = draw(st.lists(st.sampled_from(["map", "sliding_window", "zipself"]), max_size=2)) \
+        if draw(st.integers(0, 2)) == 0 else []
+    return {"two": two, "ops": ops, "inputs": [list(i) for i in inputs], "shape": shape,
+            "post": post}
 
 
 def shaped(shape, v):
@@ -192,6 +195,15 @@ def build(case, dask):
     timeline = []   # ("out", k) / ("cb", i) in the order they happened
     if dask:
         node = node.gather()
+    # local nodes after gather() (in the local run: simply further nodes): what gather() returns
+    # is an ordinary local node again
+    for pk in case.get("post", []):
+        if pk == "map":
+            node = node.map(lambda x: ("post", x))
+        elif pk == "sliding_window":
+            node = node.sliding_window(2, return_partial=True)
+        elif pk == "zipself":
+            node = node.zip(node.map(lambda x: 1))
 
     def deliver(x):
         out.append(x)
